@@ -91,7 +91,17 @@ def execute(cfg, prefix):
     w.active = {}
     w.holder = {}  # socket id -> tid of the leaseholder (None while idle in the queue)
 
+    w.waits = []  # (tid, queue id, queue attached to the pool at that moment?, leases held by requesters on that queue)
+    w.leases = {}  # queue id -> number of items requesters have taken and not returned
+
     def queue_hook(kind, tid, item):
+        if kind == "wait":
+            w.waits.append((tid, id(item), pool.pool is item, w.leases.get(id(item), 0)))
+            return
+        closer_tids = [i for i, pr in enumerate(cfg["programs"]) if pr == "close"]
+        if tid not in closer_tids:
+            qid = id(s.current_queue)
+            w.leases[qid] = w.leases.get(qid, 0) + (1 if kind == "get" else -1)
         so = getattr(item, "sock", None) if item is not None else None
         if so is None:
             return
@@ -148,9 +158,18 @@ def execute(cfg, prefix):
         q = pool.pool
         s.final_q = list(q.queue) if q is not None else None
         s.blocked_on_detached = None
+        s.drained_while_attached = False
         if s.deadlock:
             cur_q = id(q) if q is not None else None
             s.blocked_on_detached = any(isinstance(wt, tuple) and wt[0] == "q.get-wait" and wt[1] != cur_q for wt in s.deadlock.values())
+            # a blocked waiter that STARTED to wait on the pool's current queue while no requester held anything: the
+            # queue had been emptied under it although the pool still looked open (cannot happen while close() detaches
+            # the queue before it drains it)
+            blocked = {tid for tid, wt in s.deadlock.items() if isinstance(wt, tuple) and wt[0] == "q.get-wait"}
+            last_wait = {}
+            for tid, qid, attached, leases in w.waits:
+                last_wait[tid] = (attached, leases)
+            s.drained_while_attached = any(tid in last_wait and last_wait[tid][0] and last_wait[tid][1] <= 0 for tid in blocked)
         s.lease_problems = lease_check(s.events)
         # drop the pool: every socket must be closed once nothing references it
         s.socks = net.socks
@@ -224,7 +243,7 @@ def judge(cfg, s, acc, schedule):
 
     if s.deadlock:
         bad("deadlock", {str(k): repr(v) for k, v in s.deadlock.items()}, "every request eventually completes",
-            blocked_on="detached-queue" if s.blocked_on_detached else "live-queue")
+            blocked_on="detached-queue" if s.blocked_on_detached else "live-queue", drained_while_attached=bool(s.drained_while_attached))
         return ok
     for tid, r in s.results().items():
         if r is None:
